@@ -287,8 +287,13 @@ void mc_replay(const MCKind *const *kinds, int nkinds, const char *desc)
 int guard_enter(const char *sigbase, const char *casedesc)
 {
     Shared *s = S();
-    int i;
-    for (i = 0; i < s->ncrash; ++i) if (!strcmp(s->crash[i].desc, casedesc)) return 1;
+    int i, same = 0;
+    size_t bl = strlen(sigbase);
+    for (i = 0; i < s->ncrash; ++i) {
+        if (!strcmp(s->crash[i].desc, casedesc)) return 1;
+        if (!strncmp(s->crash[i].sig, sigbase, bl) && !strncmp(s->crash[i].sig + bl, "/crash/", 7)) ++same;
+    }
+    if (same >= 2) { ++g_skipped_crashy; return 1; }   /* this group already crashed twice: reported, not run again */
     if (sh) {
         snprintf(s->sigbase, sizeof(s->sigbase), "%s", sigbase);
         snprintf(s->text, sizeof(s->text), "%s", casedesc);
@@ -311,6 +316,11 @@ static const char *signame(int s)
     }
 }
 
+void guard_note_skips(void)
+{
+    if (g_skipped_crashy) note_num("cases_skipped_after_repeated_crashes_in_their_group", (double)g_skipped_crashy);
+}
+
 int mc_guarded_main(void (*body)(void))
 {
     sh = mmap(NULL, sizeof(Shared), PROT_READ | PROT_WRITE, MAP_SHARED | MAP_ANONYMOUS, -1, 0);
@@ -327,6 +337,7 @@ int mc_guarded_main(void (*body)(void))
             for (i = 0; i < sh->ncrash; ++i)
                 violation(sh->crash[i].sig, sh->crash[i].desc, "%s", sh->crash[i].text);
             body();
+            guard_note_skips();
             fflush(stdout);
             _exit(finish());
         }
